@@ -196,6 +196,8 @@ def arg_setup(kind, p, var, lang):
         return "%s.context = g_buf + %d; %s.func = mock_cb_u64;" % (var, 70 + p, var)
     if kind in ("cb_p2", "cb_p3"):
         return "%s.context = g_buf + %d; %s.func = mock_%s;" % (var, CB_OFF[kind] + p, var, kind)
+    if kind == "pair":
+        return "%s.a.data = g_buf + %d; %s.a.len = %d; %s.b = (uintptr_t)(7000 + %d);" % (var, 150 + p, var, 60 + p, var, p)
     if kind == "ptr_const":
         return "%s = g_buf + %d;" % (var, 90 + p)
     if kind == "ptr_mut":
@@ -220,6 +222,8 @@ def arg_print(kind, var):
         return 'printf("cb(%%ld;%%s),", (long)((unsigned char *)%s.context - g_buf), %s.func == mock_cb_u64 ? "ok" : "bad");' % (var, var)
     if kind in ("cb_p2", "cb_p3"):
         return 'printf("cb(%%ld;%%s),", (long)((unsigned char *)%s.context - g_buf), %s.func == mock_%s ? "ok" : "bad");' % (var, var, kind)
+    if kind == "pair":
+        return 'printf("<[%%ld;%%lu];%%lu>,", (long)(%s.a.data - g_buf), (unsigned long)%s.a.len, (unsigned long)%s.b);' % (var, var, var)
     if kind == "ptr_const":
         return 'printf("p%%ld,", (long)(%s - g_buf));' % var
     if kind == "ptr_mut":
@@ -250,6 +254,8 @@ def arg_expected(kind, p):
         return "cb(%d;ok)," % (70 + p)
     if kind in ("cb_p2", "cb_p3"):
         return "cb(%d;ok)," % (CB_OFF[kind] + p)
+    if kind == "pair":
+        return "<[%d;%d];%d>," % (150 + p, 60 + p, 7000 + p)
     if kind == "ptr_const":
         return "p%d," % (90 + p)
     if kind == "ptr_mut":
@@ -589,7 +595,7 @@ def _call_def(c, lib, lang):
             if lang == "c":
                 ty = lib.resolve(ty)
             b.append("    %s;" % lib.decl(ty, "a%d" % p))
-            if kind in ("s3", "slice", "cb", "cb_u64", "cb_p2", "cb_p3") and lang == "c":
+            if kind in ("s3", "slice", "cb", "cb_u64", "cb_p2", "cb_p3", "pair") and lang == "c":
                 b.append("    memset(&a%d, 0, sizeof a%d);" % (p, p))
             b.append("    " + arg_setup(kind, p, "a%d" % p, lang))
             args.append("a%d" % p)
